@@ -80,7 +80,9 @@ def accessOK (a : String × String × String) : Bool :=
     or writer-owned field. -/
 theorem lock_discipline : Gen.fieldAccess.all accessOK = true := by decide +kernel
 
-/-- no `go` statement and no other synchronisation hides in the package: the concurrency is the callers' -/
+/-- the functions that may run on any goroutine (WriteControl, write, writeFatal) touch only the mutex, the sticky
+    error and its lock. (That the package starts no goroutine of its own in these paths is an inventory expectation of
+    factgen — `go_statements` in expect/inventory.json — not part of this statement.) -/
 theorem any_thread_functions_touch_only_shared :
     (Gen.fieldAccess.filter (fun a => a.2.2 == "Conn.WriteControl" || a.2.2 == "Conn.write" || a.2.2 == "Conn.writeFatal")).all
       (fun a => sharedFields.contains a.1) = true := by decide +kernel
